@@ -243,9 +243,10 @@ func init() {
 					return b2i(r.OK)*2 + b2i(r.OK && r.Stats.DiscardedTokens > 0)*2 + b2i(r.OK && r.Stats.DiscardedCaptures > 0)*2 + b2i(r.OK && r.Stats.MultiByteConsumed)
 				})}
 		},
+		RetryModes: []proto.Mode{memoMode},
 		Modes: func(c *drv.Ctx, pt *Point, v lab.Variant) []proto.Mode {
 			if !pt.Ref.OK {
-				return nil
+				return []proto.Mode{memoMode} // only as the rejected first call of a retry
 			}
 			return sizeModes
 		},
@@ -479,6 +480,7 @@ func init() {
 		},
 		SkipCase:   func(cs *lab.Case) bool { return cs.G.Count(gram.KState) > 0 },
 		ReuseModes: []proto.Mode{memoMode, noMemoMode},
+		RetryModes: []proto.Mode{memoMode, noMemoMode},
 		Modes: func(c *drv.Ctx, pt *Point, v lab.Variant) []proto.Mode {
 			if pt.Ref.Budget || pt.Ref.Stats.Steps > memoFreeBudget(c) {
 				c.Stats.Class("skipped_exponential_without_memo")
